@@ -4,9 +4,18 @@ use std::collections::{HashMap, HashSet};
 use std::fs;
 use std::path::Path;
 use std::sync::Arc;
+#[cfg(not(walrus_verif))]
 use std::sync::atomic::{AtomicU64, Ordering};
+#[cfg(walrus_verif)]
+use crate::wal::verif::sync::atomic::{AtomicU64, Ordering};
+#[cfg(not(walrus_verif))]
 use std::sync::mpsc;
+#[cfg(walrus_verif)]
+use crate::wal::verif::sync::mpsc;
+#[cfg(not(walrus_verif))]
 use std::thread;
+#[cfg(walrus_verif)]
+use crate::wal::verif::thread;
 use std::time::Duration;
 
 use super::DELETION_TX;
